@@ -298,8 +298,19 @@ func (x *tr) execLoop(s *ast.RangeStmt, tail []ast.Stmt, rest [][]ast.Stmt) stri
 				}
 			}
 			fail("loop body statement %s", src(x.p.fset, st))
+		case *ast.BranchStmt:
+			if st.Tok == token.CONTINUE && st.Label == nil {
+				continue // the loop's result is a parameter anyway; break / return would not be
+			}
+			fail("loop body statement %s", src(x.p.fset, st))
 		case *ast.AssignStmt:
-			if st.Tok == token.DEFINE || len(st.Lhs) != 1 {
+			if st.Tok == token.DEFINE {
+				if x.containsAct(st.Rhs[0]) {
+					fail("loop body statement %s", src(x.p.fset, st))
+				}
+				continue // a local of the iteration
+			}
+			if len(st.Lhs) != 1 {
 				fail("loop body statement %s", src(x.p.fset, st))
 			}
 			id, ok := st.Lhs[0].(*ast.Ident)
